@@ -92,11 +92,11 @@ theorem commit_dels_sub (hL : TblInv lti) (hS : TblInv sti) (hT : TVInv sti d)
 theorem commit_keymap_unwritten (hL : TblInv lti) (hS : TblInv sti) (hT : TVInv sti d)
     (hind : indep d sti lti = true) (i : Nat) (m : Layer) (hm : d.muts[i]? = some m) (k : Key)
     (hk : m.get k = none) :
-    keymap i (viewOf lti.rows d.adds d.dels) k = keymap i lti.rows k := by
+    keymap i (viewRows lti.rows d.adds d.dels) k = keymap i lti.rows k := by
   obtain ⟨h1, h2, _, _⟩ := indep_spec hind
   have hlt : i < d.muts.length := (List.getElem?_eq_some_iff.mp hm).1
   have hs : sti.idx[i]? = some sti.idx[i] := List.getElem?_eq_getElem (h2 ▸ h1 ▸ hlt)
-  simp only [keymap, viewOf, List.find?_append]
+  simp only [keymap, viewRows, List.find?_append]
   have hA : d.adds.find? (fun r => r.key i == k) = none := by
     rw [List.find?_eq_none]
     intro a ha e
@@ -115,7 +115,7 @@ theorem commit_keymap_unwritten (hL : TblInv lti) (hS : TblInv sti) (hT : TVInv 
 theorem commit_keymap_written (hL : TblInv lti) (hS : TblInv sti)
     (hind : indep d sti lti = true) (i : Nat) (m : Layer) (hm : d.muts[i]? = some m) (k : Key)
     (hk : m.get k ≠ none) :
-    keymap i (viewOf lti.rows d.adds d.dels) k = keymap i (viewOf sti.rows d.adds d.dels) k := by
+    keymap i (viewRows lti.rows d.adds d.dels) k = keymap i (viewRows sti.rows d.adds d.dels) k := by
   obtain ⟨h1, h2, _, _⟩ := indep_spec hind
   have hlt : i < d.muts.length := (List.getElem?_eq_some_iff.mp hm).1
   have hil : i < lti.idx.length := h1 ▸ hlt
@@ -123,25 +123,25 @@ theorem commit_keymap_written (hL : TblInv lti) (hS : TblInv sti)
   have eL := keymap_filter_off i lti.rows (hL.keys i hil) (fun o => !d.dels.contains o) k
   have eS := keymap_filter_off i sti.rows (hS.keys i (h2 ▸ hil)) (fun o => !d.dels.contains o) k
   rw [e] at eL
-  simp only [keymap, viewOf, List.find?_append, Option.map_or] at eL eS ⊢
+  simp only [keymap, viewRows, List.find?_append, Option.map_or] at eL eS ⊢
   rw [eL, eS]
 
 theorem lay_idx_length (hm : d.muts.length = lti.idx.length) : (lay d lti).idx.length = lti.idx.length := by
   simp [lay, hm]
 
-theorem lay_rows : (lay d lti).rows = viewOf lti.rows d.adds d.dels := rfl
+theorem lay_rows : (lay d lti).rows = viewRows lti.rows d.adds d.dels := rfl
 
 /-- the number of rows after the commit -/
 theorem commit_count (hL : TblInv lti) (hS : TblInv sti) (hT : TVInv sti d)
     (hind : indep d sti lti = true) :
-    lti.nrows + d.dn = ((viewOf lti.rows d.adds d.dels).length : Int) := by
+    lti.nrows + d.dn = ((viewRows lti.rows d.adds d.dels).length : Int) := by
   have c1 := length_filter_dels lti.rows d.dels hL.offs hT.dnod (commit_dels_sub hL hS hT hind)
   have c2 := length_filter_dels sti.rows d.dels hS.offs hT.dnod hT.dsub
   have n1 := length_filter_not lti.rows (fun r => d.dels.contains r.off)
   have n2 := length_filter_not sti.rows (fun r => d.dels.contains r.off)
   have hc := hT.cnt
   have hn := hL.cnt
-  simp only [TDif.view, viewOf, List.length_append, Int.natCast_add] at hc ⊢
+  simp only [TDif.view, viewRows, List.length_append, Int.natCast_add] at hc ⊢
   omega
 
 /-- LayeredOnto of an independent transaction keeps the table invariant: the commit step -/
